@@ -11,7 +11,7 @@ from harness.props import c03
 PROP = 'C11'
 RULE = ("all histories write^{0..3} fin^{1..4} (thorough: fin^{1..6}) with fin in {close(), context-manager exit}, for "
         "VbsWriter and IpmWriter, blocked and unblocked, on io.BytesIO and on real files (thorough: real files for every "
-        "history); record lengths include block-boundary sizes. Non-trivial = at least one record and at least two "
+        "history); record lengths include block-boundary sizes; a second writer created on another file between two finalisation events. Non-trivial = at least one record and at least two "
         "finalisations; distinct = distinct (class, format, file kind, record lengths, finalisation string)")
 TRUSTED = c03.TRUSTED + ["IpmWriter records: the bytes produced by iso8583.dumps in the implementation are handed to the "
                          "model as the record (the encoder itself is the subject of C01/C02)"]
@@ -43,8 +43,19 @@ def impl_eval(case):
         w = cls(f, blocked=blocked)
         for o in objs:
             w.write(o)
+        second = {}
+
         def finalise():
-            for c in case['fins']:
+            for i, c in enumerate(case['fins']):
+                if case.get('other_at') == i:
+                    # ANOTHER writer comes to life on another file between two finalisation events of this one (and is
+                    # written and closed at the end): what this writer has finalised stays finalised, and the other
+                    # writer's file is its own
+                    second['f'] = KeepOpen()
+                    second['w'] = cls(second['f'], blocked=blocked)
+                    second['recs'] = [objs[0]] if objs else []
+                    for o in second['recs']:
+                        second['w'].write(o)
                 if c == 'c':
                     w.close()
                 elif case.get('withstmt'):
@@ -61,6 +72,8 @@ def impl_eval(case):
                 finalise()
         else:
             finalise()
+        if second:
+            second['w'].close()
         if path:
             f.flush()
             f.close()
@@ -78,6 +91,11 @@ def impl_eval(case):
     if back != recs or exc is not None:
         why = (f'after {len(recs)} writes and finalisations {case["fins"]!r} the file reads back as {len(back)} '
                f'records ({render_end(exc)})')
+    if why is None and second:
+        back2, exc2 = read_all(mciipm.VbsReader(io.BytesIO(second['f'].getvalue()), blocked=blocked))
+        if back2 != recs[:len(second['recs'])] or exc2 is not None:
+            why = (f"a second writer created while the first was being finalised ({case['fins']!r}, at event "
+                   f"{case['other_at']}) left a file that reads back as {len(back2)} records ({render_end(exc2)})")
     if why is None and blocked and (len(data) == 0 or len(data) % 1014
                                     or any(data[i + 1012:i + 1014] != b'@@' for i in range(0, len(data), 1014))):
         why = (f'the finalised blocked file ({len(data)} bytes after {len(recs)} writes) is not a whole number of 1014-byte '
@@ -135,5 +153,12 @@ def explore(run, tier):
                         cases.append({'cls': 'ipm', 'b': b, 'recs': recs, 'fins': fins, 'file': kind})
                         if 'e' in fins and kind == 'mem' and i % 2 == 0:
                             cases.append({'cls': 'ipm', 'b': b, 'recs': recs, 'fins': fins, 'file': kind, 'withstmt': True})
+    # two writers alive at the same time: a second one is created between two finalisation events of the first
+    for fins in ('ce', 'cc', 'ec', 'ee', 'cec', 'ecc'):
+        for at in range(1, len(fins)):
+            for b in (0, 1):
+                for cls_, sets in (('vbs', [[5], [1008, 3]]), ('ipm', [[0], [1, 0]])):
+                    for recs in sets:
+                        cases.append({'cls': cls_, 'b': b, 'recs': recs, 'fins': fins, 'file': 'mem', 'other_at': at})
     run.exhaustive.append(f'all finalisation strings over {{close, exit}} of length 1..{maxfin} x record sets x classes x formats')
     run.correspond(__name__, cases, use_model=run.use_model, chunk=50)
